@@ -322,6 +322,20 @@ PromptProposal(e, pre) ==
   => Bc(e, "PrepareRequest") # {}
 SubscribeOnlyIfConfigured(e, cfg) == Cbs(e, "SubscribeForTxs") # {} => cfg.maxTpb > 0
 
+\* C15 Honest proposals are well formed (every own PrepareRequest broadcast)
+LastBefore(e, j, kind) == LET ks == {k \in Cbs(e, kind) : k < j} IN IF ks = {} THEN 0 ELSE CHOOSE k \in ks : \A x \in ks : x <= k
+MaxI(a, b) == IF a >= b THEN a ELSE b
+ProposalWellFormed(e, j, cfg) ==
+  LET at == e.cb[j].at  m == e.cb[j].m
+      g == LastBefore(e, j, "GetVerified")  c == LastBefore(e, j, "NewPrepareRequest") IN
+    (m.from = at.me /\ m.h = at.h) =>
+      /\ m.ts > at.lbTs
+      /\ m.ts = MaxI(at.lbTs + cfg.inc, (e.now \div cfg.inc) * cfg.inc)
+      /\ g > 0 /\ m.txs = e.cb[g].pool
+      /\ c > 0 /\ e.cb[c].block.ts = m.ts /\ e.cb[c].block.nonce = m.nonce /\ e.cb[c].block.txs = m.txs
+      /\ at.ts = m.ts /\ at.nonce = m.nonce /\ at.txs = m.txs
+      /\ at.me = at.primary /\ m.v = at.v
+
 \* C06 (the part visible in every state): the primary is (h - v) mod n
 PrimaryOK(s) == s.started => s.primary = (s.h - s.v) % s.n /\ s.n = Len(s.vals)
 
@@ -397,7 +411,7 @@ StepViolations(e, pre, cfg) ==
                        \cup P("C13", "SilentAt", SilentAt(e, j))
                        \cup ( IF e.cb[j].m.t = "PrepareResponse" THEN P("C04", "ResponseEvidence", ResponseEvidence(e, j)) ELSE {} )
                        \cup ( IF e.cb[j].m.t = "PrepareRequest"
-                              THEN P("C16", "MinGap", MinGap(e, j)) \cup P("C16", "EmptyOnlyAfterMax", EmptyOnlyAfterMax(e, j)) ELSE {} )
+                              THEN P("C15", "ProposalWellFormed", ProposalWellFormed(e, j, cfg)) \cup P("C16", "MinGap", MinGap(e, j)) \cup P("C16", "EmptyOnlyAfterMax", EmptyOnlyAfterMax(e, j)) ELSE {} )
                        \cup ( IF /\ e.cb[j].m.t = (IF e.cb[j].at.amev THEN "PreCommit" ELSE "Commit")
                                  /\ FirstLock(e, j)
                               THEN P("C04", "CommitEvidence", CommitEvidence(e, j)) ELSE {} )
